@@ -56,3 +56,26 @@ package rp
 //@   requires valid(rp)
 //@ func rp.RefreshTokens
 //@   requires valid(rp)
+
+// ---- C02 (sequential part of the remote key set; schedules: see C13) ----
+// keyAccepted(jws, alg, payload) is *defined* as "verifySignatureCached / verifySignatureRemote
+// handed back payload for jws"; what they do before is proved on their bodies: the key was selected
+// by oidc.FindMatchingKey for use "sig" and this algorithm, and go-jose verified with that key.
+//@ spec func keyAccepted(jws *jose.JSONWebSignature, alg string, payload string) bool
+//@ func rp.remoteKeySet.verifySignatureCached
+//@   requires r != nil && jws != nil
+//@   ensures with-selected-key: result0 != nil ==> callres("oidc.FindMatchingKey", 1) == nil
+//@        && joseVerified(jws, callres("oidc.FindMatchingKey", 0), bstr(result0)) && usableKey(callres("oidc.FindMatchingKey", 0), "sig", alg)
+//@   defines accepted: result0 != nil ==> keyAccepted(jws, alg, bstr(result0))
+//@   ensures no-error-with-payload: result0 != nil ==> result1 == nil
+//@ func rp.remoteKeySet.verifySignatureRemote
+//@   requires r != nil && jws != nil
+//@   ensures with-selected-key: err == nil ==> callres("oidc.FindMatchingKey", 1) == nil
+//@        && joseVerified(jws, callres("oidc.FindMatchingKey", 0), bstr(result0)) && usableKey(callres("oidc.FindMatchingKey", 0), "sig", alg)
+//@   defines accepted: err == nil ==> keyAccepted(jws, alg, bstr(result0))
+//@   ensures fail-closed: err != nil ==> result0 == nil
+// A token without alg header is checked against the configured default algorithm.
+//@ func rp.remoteKeySet.VerifySignature
+//@   requires r != nil && jws != nil
+//@   ensures accepted: err == nil ==> keyAccepted(jws, ite(callres("oidc.GetKeyIDAndAlg", 1) == "", old(r.defaultAlg), callres("oidc.GetKeyIDAndAlg", 1)), bstr(result0))
+//@   ensures fail-closed: err != nil ==> result0 == nil
